@@ -1397,6 +1397,8 @@ impl LsmTree {
                 // NOTE:  Releasing a claimed compaction creates work.  A thread whose only
                 // candidates conflicted with it sleeps on `compact`, and this thread is about to
                 // return, so nobody else would ever wake it.
+                #[cfg(blue_verif)]
+                self.verif_proto.notified(verif_hooks::VERIF_COMPACT);
                 self.compact.notify_all();
                 return Err(err);
             }
